@@ -186,3 +186,133 @@ def replay_face(ob):
         return {"confirmed": True, "text": "\n".join(text)}
     text.append("real code agrees with the specification on this input (model not confirmed natively)")
     return {"confirmed": False, "text": "\n".join(text)}
+
+
+# ---- bounded native battery: whole consistent tables on the real code ------------------------------------------------
+def random_table(rng, F, p_open=0.2, p_rev=0.35, allow_self=True):
+    """a random RECIPROCAL link table over F faces and the axes X, Y (the constructor's reciprocity rule: a link stored on
+    side s points to the neighbour's side 1-s, or to side s when the reverse flag is set)"""
+    slots = [(f, a, s) for f in range(F) for a in "XY" for s in (0, 1)]
+    rng.shuffle(slots)
+    table = {f: {"X": [None, None], "Y": [None, None]} for f in range(F)}
+    free = set(slots)
+    for sl in slots:
+        if sl not in free:
+            continue
+        free.discard(sl)
+        if rng.random() < p_open:
+            continue
+        f, a, s = sl
+        rev = rng.random() < p_rev
+        t_side = s if rev else 1 - s
+        cands = sorted(c for c in free if c[2] == t_side and (allow_self or c[0] != f))
+        if not cands:
+            continue
+        g, b2, t = cands[rng.randrange(len(cands))]
+        table[f][a][s] = (g, b2, rev)
+        table[g][b2][t] = (f, a, rev)
+        free.discard((g, b2, t))
+    return {f: {a: tuple(v) for a, v in d.items()} for f, d in table.items()}
+
+
+def ring_table(F, axis="X"):
+    """F faces in a periodic ring along one axis (F = 1: a periodic self link, F = 2: both sides of a face lead to the same face)"""
+    return {f: {axis: (((f - 1) % F, axis, False), ((f + 1) % F, axis, False))} for f in range(F)}
+
+
+def check_table(table, kind, Wv, rules, N=4, extra="none"):
+    """real Grid (through the real constructor), real xarray, real pad on the whole table; every non-corner cell of EVERY face is
+    compared with the specification clauses of C05 evaluated on numbers.  Returns (list of mismatch texts, cells compared)."""
+    import xarray as xr
+    import xgcm
+    import xgcm.padding as P
+    import harness.C05 as H
+
+    F = len(table)
+    T, Z = 2, 2
+    conn = tuple(sorted({a for d in table.values() for a in d}))
+    fillv = {"X": 0.5, "Y": -1.5}
+    pre = ["t"] if extra in ("before", "both") else []
+    post = ["z"] if extra in ("after", "both") else []
+    esz = {"t": T, "z": Z}
+
+    def mk(ydim, xdim, off, sign):
+        dims = pre + ["face"] + post + [ydim, xdim]
+        shape = [esz[d] for d in pre] + [F] + [esz[d] for d in post] + [N, N]
+        return xr.DataArray(_np_field(tuple(shape), off, sign), dims=dims)
+    if kind is None:
+        arg, oc = mk("y", "x", 0.25, 1), None
+    elif kind == "X":
+        arg, oc = {"X": mk("y", "xl", 0.25, 1)}, {"Y": mk("yl", "x", 0.5, -1)}
+    else:
+        arg, oc = {"Y": mk("yl", "x", 0.25, 1)}, {"X": mk("y", "xl", 0.5, -1)}
+    ds = xr.Dataset(coords={d: np.arange(n) for d, n in {"x": N, "xl": N, "y": N, "yl": N, "face": F, "t": T, "z": Z}.items()})
+    grid = xgcm.Grid(ds, coords={"X": {"center": "x", "left": "xl"}, "Y": {"center": "y", "left": "yl"}}, periodic=False,
+                     face_connections={"face": {f: dict(d) for f, d in table.items()}}, autoparse_metadata=False)
+    try:
+        out = P.pad(arg, grid, boundary_width=dict(Wv), boundary=dict(rules), fill_value=dict(fillv), other_component=oc)
+    except Exception as e:  # noqa
+        return [f"REAL CODE RAISED {type(e).__name__}: {e}"], 0
+    if isinstance(out, dict):
+        (out,) = out.values()
+    mism, ncmp = [], 0
+    mods = util.xgcm_modules()
+    for gi in range(F):
+        entry, srcv = {}, {}
+        for a, lr in table[gi].items():
+            for side, lk in enumerate(lr):
+                if lk is not None:
+                    entry[(a, side)] = ("same" if lk[1] == a else "swap", bool(lk[2]))
+                    srcv[(a, side)] = lk[0]
+        st = H.mk(kind, entry, tuple(Wv), dict(rules), extra)
+        st["conn"] = conn
+        symx.CUR = symx.Ctx([])
+        try:
+            with util.patched(*util.std_patches(mods)):
+                b = H.build(st)
+            gsym = z3.Int("i_replay")
+            symx.CUR.ghost["generic"] = (gsym, b["F"])
+
+            class FakeOut:
+                dims = b["da"].dims
+                sizes = {d: b["da"].sizes[d] for d in b["da"].dims}
+
+                @staticmethod
+                def elem(idx):
+                    return z3.Real("GOT")
+            H.expected(st, b, FakeOut, None)
+            cells, q = b["cells"], b["q"]
+        finally:
+            symx.CUR = None
+        xd, yd = b["xd"], b["yd"]
+        consts = [(z3.Int("N"), z3.IntVal(N)), (z3.Int("F"), z3.IntVal(F)), (z3.Int("T"), z3.IntVal(T)), (z3.Int("Z"), z3.IntVal(Z)), (gsym, z3.IntVal(gi)),
+                  (z3.Real("fillX"), z3.RealVal(str(fillv["X"]))), (z3.Real("fillY"), z3.RealVal(str(fillv["Y"])))]
+        for a in st["bw"]:
+            consts += [(z3.Int(f"w{a}lo"), z3.IntVal(Wv[a][0])), (z3.Int(f"w{a}hi"), z3.IntVal(Wv[a][1]))]
+        for k, v in srcv.items():
+            consts.append((z3.Int(f"src_{k[0]}{k[1]}"), z3.IntVal(v)))
+        funs = [_numfun(b["da"].fn)]
+        if b["partner"] is not None:
+            funs.append(_numfun(b["partner"].fn, 0.5, -1))
+        exp_sizes = {xd: N + sum(Wv.get("X", (0, 0))), yd: N + sum(Wv.get("Y", (0, 0))), "face": F}
+        for d, n in exp_sizes.items():
+            if d not in out.dims or out.sizes[d] != n:
+                return [f"size of {d}: got {out.sizes.get(d)} expected {n}"], ncmp
+        outv = out.transpose(*pre, "face", *post, yd, xd).values
+        ext = tuple(0 for _ in pre + post)
+        exd = dict(zip(pre + post, ext))
+        for qy in range(exp_sizes[yd]):
+            for qx in range(exp_sizes[xd]):
+                subs = consts + [(q[yd], z3.IntVal(qy)), (q[xd], z3.IntVal(qx))] + [(q[d], z3.IntVal(v)) for d, v in exd.items()]
+                for name, region, valt in cells:
+                    if evalnum(region, subs, []):
+                        want = evalnum(valt, subs, funs)
+                        pos = tuple(exd[d] for d in pre) + (gi,) + tuple(exd[d] for d in post) + (qy, qx)
+                        got = float(outv[pos])
+                        ncmp += 1
+                        if not (abs(got - want) < 1e-9):
+                            mism.append(f"face {gi} (links {table[gi]}), {name}: cell {yd}={qy} {xd}={qx} got {got} expected {want}")
+                        break
+        if len(mism) > 6:
+            break
+    return mism, ncmp
